@@ -12,6 +12,10 @@ import (
 // and contra Go, it does not return the size of a map.
 func Length(value any) int {
 	value = ToLiquid(value)
+	if r, ok := value.(Range); ok {
+		// a range has as many elements as the array it stands for
+		return r.Len()
+	}
 	ref := reflect.ValueOf(value)
 	switch ref.Kind() {
 	case reflect.Array, reflect.Slice:
